@@ -59,6 +59,7 @@ fn main() {
         }
     };
     engine::install_crash_handler(id);
+    engine::start_watchdog(id);
     let code = if args[2] == "--replay" {
         if args.len() < 4 {
             usage();
